@@ -1,0 +1,13 @@
+//go:build !verif
+
+package dict
+
+import "github.com/karino2/folang/pkg/frt"
+
+// Verification hooks (see verif_on.go). Without the verif build tag they do nothing.
+
+func verifOrderKeys[K comparable](res []K) []K { return res }
+
+func verifOrderValues[K comparable, V any](m map[K]V, res []V) []V { return res }
+
+func verifOrderKVs[K comparable, V any](res []frt.Tuple2[K, V]) []frt.Tuple2[K, V] { return res }
